@@ -15,7 +15,7 @@ struct StyledObject<D> { val: D, style: Ghost<int> }
 uninterp spec fn styled(style: Style, inner: Seq<char>) -> Seq<char>;
 impl Style {
     #[verifier::external_body]
-    fn apply_to<D>(&self, val: D) -> (r: StyledObject<D>) ensures r.val == val { unimplemented!() }
+    fn apply_to<D>(&self, val: D) -> (r: StyledObject<D>) ensures r.val == val, r.style@ == self.id() { unimplemented!() }
     uninterp spec fn id(&self) -> int;
 }
 uninterp spec fn styled_i(style: int, inner: Seq<char>) -> Seq<char>;
@@ -66,6 +66,19 @@ impl ProgressState {
 #[verifier::external_body] fn pct(f: f32) -> (r: f32) ensures r == pct_v(f) { unimplemented!() }          // R6: `f * 100f32`
 #[verifier::external_body] fn f64_to_u64(x: f64) -> (r: u64) ensures r == f64_u64(x) { unimplemented!() }  // R6: `x as u64`
 
+// String building (R5; ASSUMED: std String operations append / clear as their names say)
+#[verifier::external_body] fn s_new() -> (r: String) ensures r@ == Seq::<char>::empty() { String::new() }
+#[verifier::external_body] fn s_push(b: &mut String, c: char) ensures final(b)@ == old(b)@.push(c) { b.push(c) }
+#[verifier::external_body] fn s_push_str(b: &mut String, x: &String) ensures final(b)@ == old(b)@ + x@ { b.push_str(x) }
+#[verifier::external_body] fn s_clear(b: &mut String) ensures final(b)@ == Seq::<char>::empty() { b.clear() }
+#[verifier::external_body] fn s_is_empty(b: &String) -> (r: bool) ensures r == (b@.len() == 0) { b.is_empty() }
+// R5: `cur.replace('\x00', X)`, `measure_text_width`, `format!("{}", x)`, `trim_end`, last-byte test (ASSUMED std / console behaviour)
+#[verifier::external_body] fn s_replace_nul(s: &String, r: &String) -> (o: String) ensures o@ == replace_nul(s@, r@) { s.replace('\x00', r) }
+#[verifier::external_body] fn s_replace_nul_empty(s: &String) -> (o: String) ensures o@ == replace_nul(s@, Seq::<char>::empty()) { s.replace('\x00', "") }
+#[verifier::external_body] fn measure_text_width(s: &String) -> (n: usize) ensures n == text_cols(s@) { unimplemented!() }
+#[verifier::external_body] fn fmt_to_string<T: SDisp>(x: T) -> (o: String) ensures o@ == x.sd(Fl::Plain) { unimplemented!() }
+#[verifier::external_body] fn s_trim_end(s: &String) -> (o: &String) ensures o@ == trim_end_spec(s@) { unimplemented!() }
+#[verifier::external_body] fn ends_with_nul(s: &String) -> (r: bool) ensures r == (s@.len() > 0 && s@.last() == '\x00') { s.as_bytes().last() == Some(&b'\x00') }
 // R5: `mem::take(cur)` on a String
 #[verifier::external_body]
 fn take_string(x: &mut String) -> (r: String) ensures r@ == old(x)@, final(x)@ == Seq::<char>::empty() { std::mem::take(x) }
@@ -90,6 +103,12 @@ impl Tracker {
         ensures final(w).0@ == old(w).0@ + expand(custom_text(*self, *state), old(w).1 as nat), final(w).1 == old(w).1
     { unimplemented!() }
 }
+// R5: `tracker.write(state, &mut TabRewriter(&mut buf, tab_width))` (TabRewriter::write_str is verified in c16_tabs;
+// ASSUMED: the tracker writes only through the writer it is given)
+#[verifier::external_body]
+fn tracker_write(t: &Tracker, state: &ProgressState, buf: &mut String, tab_width: usize)
+    ensures final(buf)@ == old(buf)@ + expand(custom_text(*t, *state), tab_width as nat)
+{ unimplemented!() }
 #[verifier::external_body]
 struct FormatMap { _p: core::marker::PhantomData<()> }
 impl FormatMap {
@@ -155,7 +174,29 @@ enum WSpec { NoWide, WBar(Option<Style>), WMsg(Alignment) }
 spec fn wview(w: Option<WideElement>) -> WSpec {
     match w { None => WSpec::NoWide, Some(WideElement::Bar { alt_style }) => WSpec::WBar(*alt_style), Some(WideElement::Message { align }) => WSpec::WMsg(*align) }
 }
-uninterp spec fn wide_text(w: WSpec, cur: Seq<char>, style: ProgressStyle, st: ProgressState, width: u16) -> Seq<char>;
+// the wide element takes the columns the rest of the line leaves free (C13 / C12): the marker is replaced by a bar
+// of exactly that width, or by the message padded / truncated to that width (trailing padding is dropped when the
+// marker ends the line)
+spec fn replace_nul(s: Seq<char>, r: Seq<char>) -> Seq<char> decreases s.len() {
+    if s.len() == 0 { s } else if s.last() == '\x00' { replace_nul(s.drop_last(), r) + r } else { replace_nul(s.drop_last(), r).push(s.last()) }
+}
+uninterp spec fn text_cols(s: Seq<char>) -> nat;          // console::measure_text_width
+uninterp spec fn trim_end_spec(s: Seq<char>) -> Seq<char>;   // str::trim_end
+spec fn wide_left(cur: Seq<char>, width: u16) -> usize {
+    let used = text_cols(replace_nul(cur, Seq::<char>::empty()));
+    if used >= width as nat { 0usize } else { (width as nat - used) as usize }
+}
+spec fn wide_text(w: WSpec, cur: Seq<char>, style: ProgressStyle, st: ProgressState, width: u16) -> Seq<char> {
+    let left = wide_left(cur, width);
+    match w {
+        WSpec::NoWide => cur,
+        WSpec::WBar(alt) => replace_nul(cur, bar_text(style, fraction_v(st), left, alt)),
+        WSpec::WMsg(align) => {
+            let padded = padded_text(expand(st.message.orig(), style.tab_width as nat), left, align, true);
+            replace_nul(cur, if cur.len() > 0 && cur.last() == '\x00' { trim_end_spec(padded) } else { padded })
+        },
+    }
+}
 // ---- line structure: one output line per template line; a value containing newlines is split
 spec fn has_nl(s: Seq<char>) -> bool { exists|i: int| 0 <= i < s.len() && s[i] == '\n' }
 spec fn split_nl_spec(s: Seq<char>) -> Seq<Seq<char>> decreases s.len() {
@@ -164,22 +205,42 @@ spec fn split_nl_spec(s: Seq<char>) -> Seq<Seq<char>> decreases s.len() {
     else { let p = split_nl_spec(s.drop_last()); p.drop_last().push(p.last().push(s.last())) }
 }
 // the first piece of a split is a prefix of the text, followed by a newline unless it is the only piece
+spec fn nl_cat(s: Seq<char>, a: Seq<char>, rest: Seq<char>) -> bool { s == a + seq!['\n'] + rest }
 proof fn lemma_split_first(s: Seq<char>)
-    ensures split_nl_spec(s).len() == 1 ==> split_nl_spec(s)[0] == s,
-            split_nl_spec(s).len() > 1 ==> exists|rest: Seq<char>| s == split_nl_spec(s)[0] + seq!['\n'] + rest
+    ensures split_nl_spec(s).len() >= 1,
+            split_nl_spec(s).len() == 1 ==> split_nl_spec(s)[0] == s,
+            split_nl_spec(s).len() > 1 ==> exists|rest: Seq<char>| #[trigger] nl_cat(s, split_nl_spec(s)[0], rest)
     decreases s.len()
 {
     if s.len() > 0 {
         let t = s.drop_last();
+        let c = s.last();
         lemma_split_first(t);
         let p = split_nl_spec(t);
-        assert(s =~= t.push(s.last()));
-        if s.last() == '\n' {
-            if p.len() == 1 { assert(s =~= p[0] + seq!['\n'] + Seq::<char>::empty()); }
-            else { let rest = choose|rest: Seq<char>| t == p[0] + seq!['\n'] + rest; assert(s =~= p[0] + seq!['\n'] + rest.push('\n')); }
+        let q = split_nl_spec(s);
+        assert(s =~= t.push(c));
+        if c == '\n' {
+            assert(q == p.push(Seq::<char>::empty()));
+            assert(q[0] == p[0]);
+            if p.len() == 1 {
+                assert(s =~= p[0] + seq!['\n'] + Seq::<char>::empty());
+                assert(nl_cat(s, q[0], Seq::<char>::empty()));
+            } else {
+                let rest = choose|rest: Seq<char>| #[trigger] nl_cat(t, p[0], rest);
+                assert(s =~= p[0] + seq!['\n'] + rest.push('\n'));
+                assert(nl_cat(s, q[0], rest.push('\n')));
+            }
         } else {
-            if p.len() == 1 { assert(p.drop_last().push(p.last().push(s.last()))[0] =~= s); }
-            else { let rest = choose|rest: Seq<char>| t == p[0] + seq!['\n'] + rest; assert(s =~= p[0] + seq!['\n'] + rest.push(s.last())); }
+            assert(q == p.drop_last().push(p.last().push(c)));
+            if p.len() == 1 {
+                assert(q[0] == p[0].push(c));
+                assert(q[0] =~= s);
+            } else {
+                assert(q[0] == p[0]);
+                let rest = choose|rest: Seq<char>| #[trigger] nl_cat(t, p[0], rest);
+                assert(s =~= p[0] + seq!['\n'] + rest.push(c));
+                assert(nl_cat(s, q[0], rest.push(c)));
+            }
         }
     }
 }
@@ -210,6 +271,41 @@ proof fn lemma_split_no_nl(s: Seq<char>)
         }
     }
 }
+
+// ---- the rendering of a whole template: placeholders and literals accumulate on the current line,
+// a NewLine part (and the end of a non-empty last line) emits it
+struct Acc { cur: Seq<char>, wide: WSpec, out: Seq<(bool, Seq<char>)> }
+spec fn flush_line(a: Acc, style: ProgressStyle, st: ProgressState, tw: u16) -> Acc {
+    let text = match a.wide { WSpec::NoWide => a.cur, w => wide_text(w, a.cur, style, st, tw) };
+    Acc { cur: Seq::<char>::empty(), wide: a.wide, out: a.out + bar_views(split_nl_spec(text)) }
+}
+spec fn step(a: Acc, p: TemplatePart, style: ProgressStyle, st: ProgressState, tw: u16) -> Acc {
+    match p {
+        TemplatePart::Literal(t) => Acc { cur: a.cur + expand(t.orig(), style.tab_width as nat), wide: a.wide, out: a.out },
+        TemplatePart::Placeholder { key, align, width, truncate, style: sty, alt_style } => {
+            let custom = style.format_map.lookup(key@) is Some;
+            let wide = if !custom && key@ == "wide_bar"@ { WSpec::WBar(alt_style) } else if !custom && key@ == "wide_msg"@ { WSpec::WMsg(align) } else { a.wide };
+            Acc { cur: a.cur + field_text(placeholder_value(key@, style, st, width, alt_style), width, align, truncate, sty), wide: wide, out: a.out }
+        },
+        TemplatePart::NewLine => flush_line(a, style, st, tw),
+    }
+}
+spec fn run(parts: Seq<TemplatePart>, k: int, style: ProgressStyle, st: ProgressState, tw: u16) -> Acc decreases k {
+    if k <= 0 { Acc { cur: Seq::<char>::empty(), wide: WSpec::NoWide, out: Seq::<(bool, Seq<char>)>::empty() } }
+    else { step(run(parts, k - 1, style, st, tw), parts[k - 1], style, st, tw) }
+}
+spec fn rendered(style: ProgressStyle, st: ProgressState, tw: u16) -> Seq<(bool, Seq<char>)> {
+    let a = run(style.template.parts@, style.template.parts@.len() as int, style, st, tw);
+    if a.cur.len() == 0 { a.out } else { flush_line(a, style, st, tw).out }
+}
+// precondition: message, prefix and literals are expanded for the style's current tab width (established by
+// ProgressStyle::set_tab_width / BarState::set_tab_width, c16_tabs), at least two tick strings (c14_style)
+spec fn fs_pre(style: ProgressStyle, st: ProgressState) -> bool {
+    &&& st.message.wf() && st.message.has_width(style.tab_width)
+    &&& st.prefix.wf() && st.prefix.has_width(style.tab_width)
+    &&& style.tick_strings@.len() >= 2
+    &&& forall|i: int| 0 <= i < style.template.parts@.len() ==> (#[trigger] style.template.parts@[i] matches TemplatePart::Literal(t) ==> t.wf() && t.has_width(style.tab_width))
+}
 """
 
 STYLE_DECL_RW = [Rw("R15", r"Vec<Box<str>>", "Vec<String>", count=2),
@@ -217,7 +313,7 @@ STYLE_DECL_RW = [Rw("R15", r"Vec<Box<str>>", "Vec<String>", count=2),
 
 UNIT = Unit(
     name="format_state",
-    properties=["C11", "C10", "C16", "C13", "C12", "C01"],
+    properties=["C11"],
     prelude=["time", "atomics", "tabs", "est_opaque", "sfmt"],
     rlimit=100,
     trusted=[],
@@ -244,24 +340,167 @@ UNIT = Unit(
         Fn("src/state.rs", "ProgressState", "len", ensures=[("C07-len", "r == self.len")]),
         Fn("src/state.rs", "ProgressState", "is_finished", ensures=[("def", "r == self.finished()")]),
         Raw(FS_SPEC),
-        Fn("src/style.rs", "WideElement", "expand", ret="r", stub=True,
-           ensures=[("wide", "r@ == wide_text(wview(Some(self)), cur@, *style, *state, width)")]),
+        Fn("src/style.rs", "ProgressStyle", "format_bar", ret="r", stub=True,
+           sig_rewrites=[Rw("R1", r"BarDisplay<'_>", "BarDisplay")],
+           ensures=[("bar", "r.text() == bar_text(*self, fract, width, match alt_style { Some(s) => Some(*s), None => None })")]),
+        Fn("src/style.rs", "WideElement", "expand", ret="r",
+           rewrites=[Rw("R5", r"cur\.replace\('\\x00', \"\"\)", "s_replace_nul_empty(&cur)", count="any"),
+                     Rw("R5", r"cur\.replace\(\s*'\\x00',\s*&format!\(\s*\"\{\}\",\s*(style\.format_bar\([^;]*?\))\s*\),\s*\)", r"s_replace_nul(&cur, &fmt_to_string(\1))"),
+                     Rw("R5", r"buf\.clear\(\);", "s_clear(buf);"),
+                     RwFn("R7b", r7b_write_fmt, count=1), Rw("R7b", r"s_disp\(&mut buf,", "s_disp(buf,"),
+                     Rw("R5", r"match cur\.as_bytes\(\)\.last\(\) == Some\(&b'\\x00'\) \{", "match ends_with_nul(&cur) {"),
+                     Rw("R5", r"true => buf\.trim_end\(\),", "true => s_trim_end(buf),"),
+                     Rw("R5", r"false => buf,", "false => &*buf,"),
+                     Rw("R5", r"cur\.replace\('\\x00', trimmed\)", "s_replace_nul(&cur, trimmed)"),
+                     Rw("R1", r"Self::Bar", "WideElement::Bar")],
+           requires=[("msg-expanded", "state.message.wf() && state.message.has_width(style.tab_width)")],
+           ensures=[("C12-C13-wide-element-fills-the-rest", "r@ == wide_text(wview(Some(self)), cur@, *style, *state, width)")]),
         Fn("src/style.rs", "ProgressStyle", "push_line",
            rewrites=[Rw("R5", r"mem::take\(cur\)", "take_string(cur)", count=2),
                      Rw("R3", r"for \(i, line\) in expanded\.split\('\\n'\)\.enumerate\(\) \{", "let __sp = split_nl(&expanded); let mut __n0: usize = 0; while __n0 < __sp.len() { let i = __n0; let line = &__sp[__n0]; __n0 += 1;"),
                      Rw("R5", r"line\.len\(\) == expanded\.len\(\)", "same_byte_len(line, &expanded)"),
                      Rw("R5", r"line\.to_string\(\)", "to_owned_string(line)")],
+           requires=[("msg-expanded", "state.message.wf() && state.message.has_width(self.tab_width)")],
            ensures=[("C10-one-line-per-template-line",
                      "lvs(final(lines)@) == lvs(old(lines)@) + bar_views(split_nl_spec(match wview(*wide) { WSpec::NoWide => old(cur)@, w => wide_text(w, old(cur)@, *self, *state, target_width) }))"),
                     ("cur-cleared", "final(cur)@.len() == 0")],
-           proofs=[(r"let __sp = split_nl", "before", """        let ghost l0 = lines@; let ghost et = expanded@;
-        proof { lemma_split_first(et); lemma_split_no_nl(et); }""")],
+           proofs=[(r"let __sp = split_nl", "before", "        let ghost l0 = lines@; let ghost et = expanded@;"),
+                   (r"break;", "before", """                proof {
+                    let sp = split_nl_spec(et);
+                    lemma_split_first(et);
+                    if sp.len() > 1 {
+                        let rest = choose|rest: Seq<char>| #[trigger] nl_cat(et, sp[0], rest);
+                        axiom_blen(sp[0] + seq!['\\n'], rest); axiom_blen(sp[0], seq!['\\n']);
+                    }
+                    assert(sp.len() == 1 && sp[0] == et);
+                    assert(bar_views(sp.subrange(0, 0)) =~= Seq::<(bool, Seq<char>)>::empty());
+                    assert(lvs(lines@) =~= lvs(lb).push((true, et)));
+                    assert(bar_views(sp) =~= seq![(true, et)]);
+                    assert(lvs(lines@) =~= lvs(l0) + bar_views(sp));
+                }""")],
            loops={0: {"invariant": ["__n0 <= __sp@.len()", "__sp@.len() == split_nl_spec(et).len()",
-                                    "forall|k: int| 0 <= k < __sp@.len() ==> (#[trigger] __sp@[k])@ == split_nl_spec(et)[k]",
+                                    "forall|k: int| 0 <= k < __sp@.len() ==> (#[trigger] __sp@[k])@ == split_nl_spec(et)[k]"],
+                      "invariant_except_break": [
                                     "expanded@ == et",
                                     "lvs(lines@) == lvs(l0) + bar_views(split_nl_spec(et).subrange(0, __n0 as int))",
                                     "__n0 > 0 ==> split_nl_spec(et).len() > 1"],
                       "ensures": ["lvs(lines@) == lvs(l0) + bar_views(split_nl_spec(et))"],
+                      "body_start": "            let ghost lb = lines@;",
+                      "body_end": """            proof {
+                let sp = split_nl_spec(et);
+                lemma_split_first(et);
+                if sp.len() == 1 { assert(sp[0] == et); }
+                assert(sp.len() > 1);
+                assert(sp.subrange(0, i + 1) =~= sp.subrange(0, i as int).push(sp[i as int]));
+                assert(bar_views(sp.subrange(0, i + 1)) =~= bar_views(sp.subrange(0, i as int)).push((true, sp[i as int])));
+                assert(lvs(lines@) =~= lvs(lb).push((true, sp[i as int])));
+                if __n0 == __sp@.len() { assert(sp.subrange(0, __n0 as int) =~= sp); }
+            }""",
                       "decreases": "__sp@.len() - __n0"}}),
+        Lemma("lemma_run_lines", "(parts: Seq<TemplatePart>, k: int, style: ProgressStyle, st: ProgressState, tw: u16)",
+              ensures=[("C10-C01-every-line-is-one-row-of-text",
+                        "forall|i: int| 0 <= i < run(parts, k, style, st, tw).out.len() ==> (#[trigger] run(parts, k, style, st, tw).out[i]).0 && !has_nl(run(parts, k, style, st, tw).out[i].1)")],
+              decreases="k",
+              body="""{
+    if k > 0 {
+        lemma_run_lines(parts, k - 1, style, st, tw);
+        let a = run(parts, k - 1, style, st, tw);
+        if parts[k - 1] is NewLine {
+            let text = match a.wide { WSpec::NoWide => a.cur, w => wide_text(w, a.cur, style, st, tw) };
+            lemma_split_no_nl(text);
+            let o = run(parts, k, style, st, tw).out;
+            assert(o == a.out + bar_views(split_nl_spec(text)));
+            assert forall|i: int| 0 <= i < o.len() implies (#[trigger] o[i]).0 && !has_nl(o[i].1) by {
+                if i >= a.out.len() { assert(o[i] == bar_views(split_nl_spec(text))[i - a.out.len()]); }
+            }
+        }
+    }
+}"""),
+        Lemma("lemma_rendered_lines", "(style: ProgressStyle, st: ProgressState, tw: u16)",
+              ensures=[("C10-C01-frame-lines-are-bar-lines-without-newlines",
+                        "forall|i: int| 0 <= i < rendered(style, st, tw).len() ==> (#[trigger] rendered(style, st, tw)[i]).0 && !has_nl(rendered(style, st, tw)[i].1)")],
+              body="""{
+    let parts = style.template.parts@;
+    lemma_run_lines(parts, parts.len() as int, style, st, tw);
+    let a = run(parts, parts.len() as int, style, st, tw);
+    if a.cur.len() != 0 {
+        let text = match a.wide { WSpec::NoWide => a.cur, w => wide_text(w, a.cur, style, st, tw) };
+        lemma_split_no_nl(text);
+        let o = rendered(style, st, tw);
+        assert(o == a.out + bar_views(split_nl_spec(text)));
+        assert forall|i: int| 0 <= i < o.len() implies (#[trigger] o[i]).0 && !has_nl(o[i].1) by {
+            if i >= a.out.len() { assert(o[i] == bar_views(split_nl_spec(text))[i - a.out.len()]); }
+        }
+    }
+}"""),
+        Fn("src/style.rs", "ProgressStyle", "get_tick_str", ret="r", sig_rewrites=[Rw("R15", r"-> &str", "-> &String")],
+           requires=[("two-ticks", "self.tick_strings@.len() >= 2")],
+           ensures=[("def", "r@ == self.tick_strings@[(idx as usize as int) % (self.tick_strings@.len() - 1)]@")]),
+        Fn("src/style.rs", "ProgressStyle", "get_final_tick_str", ret="r", sig_rewrites=[Rw("R15", r"-> &str", "-> &String")],
+           requires=[("two-ticks", "self.tick_strings@.len() >= 2")],
+           ensures=[("def", "r@ == self.tick_strings@[self.tick_strings@.len() - 1]@")]),
+        Fn("src/style.rs", "ProgressStyle", "current_tick_str", ret="r", sig_rewrites=[Rw("R15", r"-> &str", "-> &String")],
+           requires=[("two-ticks", "self.tick_strings@.len() >= 2")],
+           ensures=[("C11-spinner", "r@ == tick_text(*self, *state)")]),
+        Fn("src/style.rs", "ProgressStyle", "format_state",
+           rewrites=[Rw("R5", r"String::new\(\)", "s_new()", count=2),
+                     Rw("R5", r"buf\.clear\(\);", "s_clear(&mut buf);"),
+                     Rw("R5", r"buf\.push\('\\x00'\);", r"s_push(&mut buf, '\\x00');", count=2),
+                     Rw("R10", r"self\.format_map\.get\(key\.as_str\(\)\)", "self.format_map.get(key)"),
+                     Rw("R5", r"tracker\.write\(state, &mut TabRewriter\(&mut buf, self\.tab_width\)\);", "tracker_write(tracker, state, &mut buf, self.tab_width);"),
+                     Rw("R6", r"state\.fraction\(\) \* 100f32", "pct(state.fraction())", count=2),
+                     Rw("R6", r"state\.per_sec\(\) as u64", "f64_to_u64(state.per_sec())", count=3),
+                     Rw("R5", r"!cur\.is_empty\(\)", "!s_is_empty(&cur)"),
+                     RwFn("R7b", r7b_write_fmt), RwFn("R12", r12_match_str, count=1),
+                     Rw("R5", r"(\w+)\.push_str\(", r"s_push_str(&mut \1, ", count=None),
+                     RwFn("R3", r3_index_loops, count=1)],
+           requires=[("pre", "fs_pre(*self, *state)")],
+           proofs=[(r"let pos = state\.pos\(\);", "before", "        let ghost l0 = lines@;"),
+                   (r"(?m)^\s*match width \{", "before", """                    proof {
+                        let pv = placeholder_value(key@, *self, *state, *width, *alt_style);
+                        /*@AS:C11-custom-key-gets-current-state*/ assert(self.format_map.lookup(key@) is Some ==> buf@ =~= pv);
+                        /*@AS:C11-key-wide_bar*/ assert(self.format_map.lookup(key@) is None && key@ == "wide_bar"@ ==> buf@ =~= pv);
+                        /*@AS:C11-key-bar*/ assert(self.format_map.lookup(key@) is None && key@ == "bar"@ ==> buf@ =~= pv);
+                        /*@AS:C11-key-spinner*/ assert(self.format_map.lookup(key@) is None && key@ == "spinner"@ ==> buf@ =~= pv);
+                        /*@AS:C11-key-wide_msg*/ assert(self.format_map.lookup(key@) is None && key@ == "wide_msg"@ ==> buf@ =~= pv);
+                        /*@AS:C11-key-msg*/ assert(self.format_map.lookup(key@) is None && key@ == "msg"@ ==> buf@ =~= pv);
+                        /*@AS:C11-key-prefix*/ assert(self.format_map.lookup(key@) is None && key@ == "prefix"@ ==> buf@ =~= pv);
+                        /*@AS:C11-key-pos*/ assert(self.format_map.lookup(key@) is None && key@ == "pos"@ ==> buf@ =~= pv);
+                        /*@AS:C11-key-human_pos*/ assert(self.format_map.lookup(key@) is None && key@ == "human_pos"@ ==> buf@ =~= pv);
+                        /*@AS:C11-key-len*/ assert(self.format_map.lookup(key@) is None && key@ == "len"@ ==> buf@ =~= pv);
+                        /*@AS:C11-key-human_len*/ assert(self.format_map.lookup(key@) is None && key@ == "human_len"@ ==> buf@ =~= pv);
+                        /*@AS:C11-key-percent*/ assert(self.format_map.lookup(key@) is None && key@ == "percent"@ ==> buf@ =~= pv);
+                        /*@AS:C11-key-percent_precise*/ assert(self.format_map.lookup(key@) is None && key@ == "percent_precise"@ ==> buf@ =~= pv);
+                        /*@AS:C11-key-bytes*/ assert(self.format_map.lookup(key@) is None && key@ == "bytes"@ ==> buf@ =~= pv);
+                        /*@AS:C11-key-total_bytes*/ assert(self.format_map.lookup(key@) is None && key@ == "total_bytes"@ ==> buf@ =~= pv);
+                        /*@AS:C11-key-decimal_bytes*/ assert(self.format_map.lookup(key@) is None && key@ == "decimal_bytes"@ ==> buf@ =~= pv);
+                        /*@AS:C11-key-decimal_total_bytes*/ assert(self.format_map.lookup(key@) is None && key@ == "decimal_total_bytes"@ ==> buf@ =~= pv);
+                        /*@AS:C11-key-binary_bytes*/ assert(self.format_map.lookup(key@) is None && key@ == "binary_bytes"@ ==> buf@ =~= pv);
+                        /*@AS:C11-key-binary_total_bytes*/ assert(self.format_map.lookup(key@) is None && key@ == "binary_total_bytes"@ ==> buf@ =~= pv);
+                        /*@AS:C11-key-elapsed_precise*/ assert(self.format_map.lookup(key@) is None && key@ == "elapsed_precise"@ ==> buf@ =~= pv);
+                        /*@AS:C11-key-elapsed*/ assert(self.format_map.lookup(key@) is None && key@ == "elapsed"@ ==> buf@ =~= pv);
+                        /*@AS:C11-key-per_sec*/ assert(self.format_map.lookup(key@) is None && key@ == "per_sec"@ ==> buf@ =~= pv);
+                        /*@AS:C11-key-bytes_per_sec*/ assert(self.format_map.lookup(key@) is None && key@ == "bytes_per_sec"@ ==> buf@ =~= pv);
+                        /*@AS:C11-key-decimal_bytes_per_sec*/ assert(self.format_map.lookup(key@) is None && key@ == "decimal_bytes_per_sec"@ ==> buf@ =~= pv);
+                        /*@AS:C11-key-binary_bytes_per_sec*/ assert(self.format_map.lookup(key@) is None && key@ == "binary_bytes_per_sec"@ ==> buf@ =~= pv);
+                        /*@AS:C11-key-eta_precise*/ assert(self.format_map.lookup(key@) is None && key@ == "eta_precise"@ ==> buf@ =~= pv);
+                        /*@AS:C11-key-eta*/ assert(self.format_map.lookup(key@) is None && key@ == "eta"@ ==> buf@ =~= pv);
+                        /*@AS:C11-key-duration_precise*/ assert(self.format_map.lookup(key@) is None && key@ == "duration_precise"@ ==> buf@ =~= pv);
+                        /*@AS:C11-key-duration*/ assert(self.format_map.lookup(key@) is None && key@ == "duration"@ ==> buf@ =~= pv);
+                        assert(buf@ =~= placeholder_value(key@, *self, *state, *width, *alt_style));
+                    }"""),
+                   (r"if !s_is_empty\(&cur\)", "before", "        proof { assert(self.template.parts@.subrange(0, __n0 as int) =~= self.template.parts@); }")],
+           loops={0: {"invariant": ["__n0 <= self.template.parts@.len()", "fs_pre(*self, *state)",
+                                    "pos == state.pos.pos@", "len == (match state.len { Some(l) => l, None => pos })",
+                                    "cur@ == run(self.template.parts@, __n0 as int, *self, *state, target_width).cur",
+                                    "wview(wide) == run(self.template.parts@, __n0 as int, *self, *state, target_width).wide",
+                                    "lvs(lines@) == lvs(l0) + run(self.template.parts@, __n0 as int, *self, *state, target_width).out"],
+                      "decreases": "self.template.parts@.len() - __n0",
+                      "body_start": "            let ghost a0 = run(self.template.parts@, __n0 as int, *self, *state, target_width); let ghost lb = lines@;",
+                      "body_end": """            proof {
+                let a1 = run(self.template.parts@, __k0 + 1, *self, *state, target_width);
+                assert(a1 == step(a0, self.template.parts@[__k0 as int], *self, *state, target_width));
+            }"""}},
+           ensures=[("C11-C10-C16-C12-C13-rendered", "lvs(final(lines)@) == lvs(old(lines)@) + rendered(*self, *state, target_width)")]),
     ],
 )
